@@ -190,6 +190,15 @@ class BaseState(ABC):
             Signal to check whether or not the operators sum up to identity,
             True by default
         """
+        # If the state lives in a product space, the channel is applied there
+        if isinstance(self.index, int):
+            assert self.envelope is not None
+            self.envelope.apply_kraus(operators, self)
+            return
+        if isinstance(self.index, (list, tuple)):
+            assert self.composite_envelope is not None
+            self.composite_envelope.apply_kraus(operators, self)
+            return
 
         assert isinstance(self.expansion_level, ExpansionLevel)
         while self.expansion_level < ExpansionLevel.Matrix:
